@@ -274,6 +274,11 @@ def pi_theorem(quantities: dict[str, Any], registry: UnitRegistry | None = None)
 
     dimensions = list(dimensions)
 
+    if not dimensions:
+        # Every quantity is already dimensionless (the dimensional matrix has
+        # no rows): each one is a dimensionless group on its own.
+        return [{name: 1.0} for name, _ in quant]
+
     # Calculate dimensionless  quantities
     matrix = [
         [dimensionality[dimension] for name, dimensionality in quant]
